@@ -123,6 +123,7 @@ type frame struct {
 	labelOf  map[ast.Stmt]string
 	specPos  token.Pos
 	ghosts   map[string]binding
+	stmtOrd  map[ast.Stmt]int // source-order ordinal of every statement of the function (for `at stmtN:` hints)
 }
 
 type binding struct {
@@ -474,6 +475,7 @@ func (vc *VC) setHeap(st *State, key string, h Term) {
 	st.heaps[key] = h
 	if hasPrev {
 		vc.linkHeaps(key, h, prev)
+		vc.linkHeapsBack(key, h, prev)
 	}
 }
 
